@@ -133,12 +133,18 @@ def fam_failure(rng):
     """C01: one to three payloads fail (nearly) at once among bystanders"""
     by, pid = bystanders(rng, 1)
     nfail = rng.choice([1, 1, 1, 2, 2, 3])
+    # one scenario in eight is about a single payload that returns a falsy value and nothing else
+    focus = rng.random() < 0.125
+    if focus:
+        nfail = 1
     fails = []
     for _ in range(nfail):
         fl = rng.choice(FLAVS)
         out = rng.choice(FAIL_KINDS)
         if rng.random() < 0.04:
             out = {"kind": "kbd"}
+        if focus:
+            out = {"kind": "value", "v": rng.choice(["zero", "zerof", "false", "empty", "list", "tuple", "falsyobj"])}
         script = [["wait", "go"], ["end", out]] if rng.random() < 0.8 else [["sleep", 0.02], ["end", out]]
         f = {"pid": pid, "fl": fl, "script": script, "role": "failing", "out": out}
         if loop_killer(f):
